@@ -45,6 +45,12 @@ def record(chk, cases, n_per_class):
             if W[name]["#sa"] is not None:
                 d["service_action"] = W[name]["#sa"]
             cmds.benign(name)
+            if i % 3 == 0:
+                # the class first encodes a dictionary that names no operation code (its result is judged by C09 / C14)
+                try:
+                    K.marshall_cdb({k: v for k, v in d.items() if k != "opcode"})
+                except Exception:
+                    pass
             try:
                 out = K.marshall_cdb(dict(d))
             except Exception as ex:
